@@ -2,10 +2,12 @@ package synth
 
 import (
 	"fmt"
+	"path/filepath"
 	"time"
 
 	"github.com/go-critic/go-critic/linter"
 
+	"verifharness/internal/common"
 	"verifharness/internal/load"
 )
 
@@ -17,7 +19,8 @@ func MkGroup(group string) func(ctx *linter.Context) ([]*linter.Checker, error) 
 }
 
 // CorpusDir is the committed store.
-const CorpusDir = "/verif/corpus/synth"
+// CorpusDir is the committed store of synthesised inputs.
+var CorpusDir = filepath.Join(common.VerifRoot(), "corpus", "synth")
 
 // BuildCorpus (developer command) refreshes the committed store: every pattern is searched with a large
 // budget; patterns for which nothing fires are recorded with an empty source so that checks do not
